@@ -19,6 +19,7 @@
 From Coq Require Import List Bool ZArith Arith.
 Import ListNotations.
 From Attrs Require Import Base C04.Model.
+From Attrs Require Gen.C04_consts.
 
 (** ** equality tests *)
 Definition err_eqb (a b : err) : bool :=
@@ -60,18 +61,21 @@ Definition total_ok (c : cfg) (seen : outcome) : bool :=
   end.
 
 (** ** the free interpretation *)
-Definition fkey (k : keyid) (v : nat) : nat := match k with K0 => Nat.modulo v 2 | K1 => 0 end.
+Definition fkey (k : keyid) (v : nat) : nat :=
+  match k with K0 | K0f => Nat.modulo v 2 | K1 | K1f => 0 end.
+(** The model follows the key-presence tests found in the source of this run. *)
+Definition fts : ktests := Gen.C04_consts.src_key_tests.
 Definition fhres := (Z * list nat)%type.
 Definition fH (s : Z) (es : list nat) : fhres := (s, es).
 Definition fhres_eqb (a b : fhres) : bool :=
   Z.eqb (fst a) (fst b) && list_eqb Nat.eqb (snd a) (snd b).
 
 Definition fcompute (c : cls) (vs : list nat) : fhres :=
-  compute nat fkey nat (fun v => v) fhres fH c vs.
+  compute nat fkey fts nat (fun v => v) fhres fH c vs.
 Definition feq_fields (c : cls) (xs ys : list nat) : bool :=
-  eq_fields nat fkey Nat.eqb (flds c) xs ys.
+  eq_fields nat fkey fts Nat.eqb (flds c) xs ys.
 Definition frun (c : cls) (start : list nat) (ops : list (op nat)) : list (mobs fhres) :=
-  run nat fkey nat (fun v => v) fhres fH c (init nat fhres c start) ops.
+  run nat fkey fts nat (fun v => v) fhres fH c (init nat fhres c start) ops.
 
 (** ** observations *)
 Inductive hobs := HVal (label : nat) (hashed keyed : list nat) | HDone | HRaised.
@@ -79,6 +83,7 @@ Inductive hobs := HVal (label : nat) (hashed keyed : list nat) | HDone | HRaised
 Inductive case :=
 | CA (c : cfg) (seen : outcome)
 | CM (c : cls) (insts : list (list nat)) (seen_eq : list (nat * nat)) (seen_lab : list nat)
+     (seen_keys : list bool)   (* per field: fields(cls).f.eq_key is not None *)
 | CH (c : cls) (start : list nat) (ops : list (op nat)) (seen : list hobs).
 
 (** every field that takes part in the hash takes part in equality *)
@@ -107,9 +112,23 @@ Fixpoint respects (hl : list (fhres * nat)) : bool :=
   | (h, l) :: r => respects_one h l r && respects r
   end.
 
+(** The property on the observation alone: "the hash is a function only of the class and
+    the hash-participating fields' KEYED values", with "keyed" read off the class itself
+    (a field is keyed iff its Attribute advertises an eq_key): instances whose
+    participating keyed values agree carry the same label. *)
+Definition advertised_fld (f : fld) (present : bool) : fld :=
+  if present then f else F (f_hash f) (match f_eq f with EqK _ => EqT | e => e end).
+Definition advertised_compute (c : cls) (keys : list bool) (vs : list nat) : fhres :=
+  fH 0%Z (hash_elems nat fkey (KT KIsNotNone KIsNotNone KIsNotNone)
+                     (map (fun p => advertised_fld (fst p) (snd p)) (combine (flds c) keys)) vs).
+
+Definition is_some {A} (o : option A) : bool := match o with Some _ => true | None => false end.
+
 Definition check_matrix (c : cls) (insts : list (list nat)) (seen_eq : list (nat * nat))
-           (seen_lab : list nat) : bool :=
+           (seen_lab : list nat) (seen_keys : list bool) : bool :=
   Nat.eqb (length seen_lab) (length insts)
+  && list_eqb Bool.eqb (map (fun f => is_some (attr_key fts f)) (flds c)) seen_keys
+  && respects (combine (map (advertised_compute c seen_keys) insts) seen_lab)
   && forallb (fun vs => Nat.eqb (length vs) (length (flds c))) insts
   && list_eqb pair_eqb (if eqgen c then pred_eq c insts
                         else map (fun i => (i, i)) (seq 0 (length insts))) seen_eq
@@ -125,7 +144,7 @@ Fixpoint match_hist (c : cls) (ms : list (mobs fhres)) (ss : list hobs)
   | [], [] => Some []
   | MHashed h comp :: mr, HVal l hs ks :: sr =>
       if list_eqb Nat.eqb hs (if comp then hashed_idx 0 (flds c) else [])
-         && list_eqb Nat.eqb ks (if comp then keyed_idx 0 (flds c) else [])
+         && list_eqb Nat.eqb ks (if comp then keyed_idx fts 0 (flds c) else [])
       then match match_hist c mr sr with Some r => Some ((h, l) :: r) | None => None end
       else None
   | MDone :: mr, HDone :: sr => match_hist c mr sr
@@ -143,7 +162,7 @@ Definition check_hist (c : cls) (start : list nat) (ops : list (op nat)) (seen :
 Definition check_case (k : case) : bool :=
   match k with
   | CA c seen => outcome_eqb (outcome_of c) seen && total_ok c seen
-  | CM c insts se sl => check_matrix c insts se sl
+  | CM c insts se sl sk => check_matrix c insts se sl sk
   | CH c start ops seen => check_hist c start ops seen
   end.
 
@@ -156,9 +175,9 @@ Inductive mview :=
 Definition model_of (k : case) : mview :=
   match k with
   | CA c _ => VA (outcome_of c) (decide c)
-  | CM c insts _ _ => VM (if eqgen c then pred_eq c insts else map (fun i => (i, i)) (seq 0 (length insts)))
+  | CM c insts _ _ _ => VM (if eqgen c then pred_eq c insts else map (fun i => (i, i)) (seq 0 (length insts)))
                          (map (fcompute c) insts)
-  | CH c start ops _ => VH (frun c start ops) (hashed_idx 0 (flds c)) (keyed_idx 0 (flds c))
+  | CH c start ops _ => VH (frun c start ops) (hashed_idx 0 (flds c)) (keyed_idx fts 0 (flds c))
   end.
 
 Lemma check_case_sound_A c seen : check_case (CA c seen) = true -> seen = outcome_of c.
@@ -183,6 +202,6 @@ Definition hscript_eqb (a b : hscript) : bool :=
   && list_eqb helem_eqb (hs_elems a) (hs_elems b).
 
 Definition script_case_ok (k : script_case) : bool :=
-  match k with SC c s => hscript_eqb (make_hash_script c) s end.
+  match k with SC c s => hscript_eqb (make_hash_script fts c) s end.
 Definition script_model_of (k : script_case) : hscript :=
-  match k with SC c _ => make_hash_script c end.
+  match k with SC c _ => make_hash_script fts c end.
